@@ -137,6 +137,7 @@ def prop_C03(run):
     rules_err.idx0(run, reach)
     rules_err.maybe_no_unwrap(run)
     rules_err.no_panicking_env(run)
+    rules_err.optional_setting_unwrap(run)       # OPT1: optional bank settings are only insisted on behind a dominating test
     import rules_asm, rules_mpt
     rules_asm.args_rules(run)
     rules_mpt.write_rules(run)
@@ -225,6 +226,7 @@ def prop_C07(run):
     rules_idx.lookahead_both(run)
     rules_idx.candidates_all_matched(run)
     rules_idx.exact_count_definition(run)
+    rules_idx.exact_count_recursive(run)
     rules_idx.brace_scan_by_tokens(run)
     rules_idx.lookahead_skips_comments(run)
     rules_idx.precedence_per_operand(run)
@@ -435,6 +437,8 @@ def prop_C15(run):
     import rules_sym as _rs
     _rs.conditional_scope_rule(run)
     _rs.simple_lookup_context(run)
+    import rules_cond as _rc
+    _rc.condition_context_rule(run)             # an #if condition is read under the context of the nearest preceding symbol of any depth
     import rules_det
     rules_det.det3(run, [f for f in run.prog.real_fns() if "symbol_manager" in f.id], rule="SYM-state")   # a look-up is a function of its arguments: no cell/atomic state in the symbol table
     run.rules_run += ["SYM declare: level test, duplicate test and insertion use one scope expression", "SYM lookup: scope = enclosing[0..level], descent name by name, unknown is an error",
@@ -506,7 +510,10 @@ def prop_C17(run):
     # recursion through asm blocks, user functions and the expression evaluator/parser (asm blocks nest through expressions)
     rules_lim.lim1(FilteredRun(run, lambda key, d: bool(__import__("re").search(r"eval_asm|eval_fn|expr::eval|Expr>::eval|reset-on-cycle\|expr::parser::parse|expr::parser::ExpressionParser", key + " " + d))))
     rules_fix.fix1(run)
-    run.rules_run += ["ASM depth guard, content filter, start position, block-local position and context, names usable in the block, concatenation order",
+    # the block's own passes: as many as the main program gets (a block with fewer gives up where the inlined text settles)
+    rules_fix.fix4(FilteredRun(run, lambda key, d: "eval_asm::resolve_iteratively|counter" in key))
+    run.rules_run += ["FIX4 (asm driver) the block's pass counter runs up to the same budget as the main resolver",
+                      "ASM depth guard, content filter, start position, block-local position and context, names usable in the block, concatenation order",
                       "ASM every parameter bound by value and by text; hygiene renaming agrees", "FN user function call shape",
                       "SK asm blocks are never statically known", "LIM1 recursion cycles guarded", "FIX1 the block's result is confirmed by a strict pass"]
 
